@@ -256,13 +256,36 @@ func parserAcceptance(c *an.Ctx) (*ssa.Function, *an.Term) {
 		c.Proved("PURE", parser, parser.Pos(), an.KeyOf(parser, "no-client-writes"), "the sync parser has no write effect on the client's state (rejection changes nothing)", "effect summary: "+strings.Join(e.WritesSorted(), ", "))
 	}
 	// the reply buffer and its length
+	// the reply buffer: the byte slice made for the reply body, i.e. the made slice that a read from the connection fills
 	var respBuf *an.Term
+	var anyMake *an.Term
 	for _, b := range parser.Blocks {
 		for _, in := range b.Instrs {
 			if ms, ok := in.(*ssa.MakeSlice); ok {
-				respBuf = fi.Term(ms)
+				anyMake = fi.Term(ms)
+			}
+			if call, ok := in.(*ssa.Call); ok {
+				var dst ssa.Value
+				switch {
+				case call.Call.IsInvoke() && call.Call.Method.Name() == "Read" && len(call.Call.Args) == 1:
+					dst = call.Call.Args[0]
+				case (an.CalleeName(&call.Call) == "io.ReadFull" || an.CalleeName(&call.Call) == "io.ReadAtLeast") && len(call.Call.Args) >= 2:
+					dst = call.Call.Args[1]
+				}
+				if dst != nil {
+					dt := fi.Term(dst)
+					if dt.K == an.KSlice {
+						dt = dt.A[0]
+					}
+					if dt.K == an.KMake {
+						respBuf = dt
+					}
+				}
 			}
 		}
+	}
+	if respBuf == nil {
+		respBuf = anyMake
 	}
 	if respBuf == nil {
 		c.Undecided("AUTH", parser, parser.Pos(), an.KeyOf(parser, "buffer"), "reply buffer not found", "shape not recognised")
@@ -388,12 +411,19 @@ func parserAcceptance(c *an.Ctx) (*ssa.Function, *an.Term) {
 	return parser, respBuf
 }
 
+// isLenMinus: the term is L - k for one symbolic quantity L (a length, or the parsed length prefix), in any arithmetic
+// spelling ((L - 64) - 8 is L - 72).
 func isLenMinus(t *an.Term, k int64) bool {
-	if t.K != an.KBin || t.S != "-" {
+	f := linearize(t)
+	if f.k != -k || len(f.co) != 1 {
 		return false
 	}
-	kc, ok := t.A[1].IsConst()
-	return ok && kc == fmt.Sprint(k)
+	for _, c := range f.co {
+		if c != 1 {
+			return false
+		}
+	}
+	return true
 }
 
 // sigFrom: term t is a local array filled by copy(dst[:], buf[len-a : len-b]) (b == 0: to the end).
@@ -940,6 +970,15 @@ func bitOrder(c *an.Ctx) {
 					for _, f := range hfi.FactsAt(st) {
 						if !f.Neg && f.T.K == an.KBin && f.T.S == "<" && isConstTerm(f.T.A[0], "0") && strings.Contains(f.T.A[1].Key(), "PowerOutput") {
 							okCond = true
+						}
+						// for an unsigned value, != 0 is > 0
+						if !f.Neg && f.T.K == an.KBin && f.T.S == "!=" {
+							for k := 0; k < 2; k++ {
+								x := f.T.A[1-k]
+								if bits, signed, isInt := intBits(x.Typ); isConstTerm(f.T.A[k], "0") && isInt && !signed && bits > 0 && strings.Contains(x.Key(), "PowerOutput") {
+									okCond = true
+								}
+							}
 						}
 					}
 				}
